@@ -203,7 +203,11 @@ func (e *Engine) functionsFor(prop string) []string {
 	}
 	seen := map[*ssa.Function]bool{}
 	for n := range set {
-		if fn := e.funcs[n]; fn != nil {
+		fname := n
+		if i := strings.Index(n, "+"); i >= 0 {
+			fname = n[:i]
+		}
+		if fn := e.funcs[fname]; fn != nil {
 			e.contractedCallees(fn, seen, set)
 		}
 	}
